@@ -16,6 +16,7 @@ type Ev struct {
 	Y, M, D int    // 0 = absent part; all 0 = no date
 	Text    string // DATE value as written (may differ from the exact form)
 	Place   string
+	Extra   []*Spec // further lines below the event (AGE, CAUS, TYPE, NOTE ...)
 }
 
 var MonthAbbr = []string{"", "Jan", "Feb", "Mar", "Apr", "May", "Jun", "Jul", "Aug", "Sep", "Oct", "Nov", "Dec"}
@@ -338,6 +339,7 @@ func evSpec(e *Ev) *Spec {
 	if e.Place != "" {
 		s.Kids = append(s.Kids, &Spec{Tag: "PLAC", Value: e.Place})
 	}
+	s.Kids = append(s.Kids, e.Extra...)
 	return s
 }
 
